@@ -40,6 +40,9 @@ type hstep struct {
 	desc    string
 	k       string // own stable key (batched histories); empty: the history's key
 	class   string // own listing class; empty: the history's class
+	config  bool   // configuration only (no call): nothing to judge
+	ignore  bool   // executed, but only a panic is judged
+	hard    bool   // the rejection must not be of the "not for this identity" class
 }
 
 type histCase struct {
@@ -87,11 +90,14 @@ func (h *histCase) judge(r *mon.Run, o *outcome, died string) (violated bool) {
 	}
 	nBad := 0
 	for _, s := range h.steps {
-		if !s.accept {
+		if !s.accept && !s.config && !s.ignore {
 			nBad++
 		}
 	}
 	for i, s := range h.steps {
+		if s.config {
+			continue
+		}
 		so := &o.Sub[i]
 		sk, cls := h.k, h.class
 		if s.k != "" {
@@ -102,7 +108,7 @@ func (h *histCase) judge(r *mon.Run, o *outcome, died string) (violated bool) {
 		if s.class != "" {
 			cls = s.class
 		}
-		if !s.accept {
+		if !s.accept && !s.ignore {
 			r.Eval(1)
 			r.Distinct("history:" + sk)
 		}
@@ -111,9 +117,19 @@ func (h *histCase) judge(r *mon.Run, o *outcome, died string) (violated bool) {
 			violated = true
 			continue
 		}
+		if s.ignore {
+			continue
+		}
 		if s.accept {
 			if !acceptedRight(so, s.Route, s.fk, s.pt) {
-				r.Inconclusive("control: history %s step %d (%s) should have been opened: accepted=%v err=%q", h.k, i, s.desc, so.Accepted, so.Err)
+				// every failing control makes the run inconclusive; only the
+				// first few are spelled out
+				if failedControls++; failedControls <= 5 {
+					r.Inconclusive("control: history %s step %d (%s) should have been opened: accepted=%v err=%q", h.k, i, s.desc, so.Accepted, so.Err)
+				} else if failedControls == 6 {
+					r.Inconclusive("control: further history controls failed (see counter history_controls_failed)")
+				}
+				r.Count("history_controls_failed", 1)
 			} else {
 				r.Count("history_controls_opened", 1)
 			}
@@ -123,6 +139,12 @@ func (h *histCase) judge(r *mon.Run, o *outcome, died string) (violated bool) {
 		if so.Accepted {
 			rep.violate(pendingViolation{"hist-" + s.kind + "-accepted/" + cls, "hist-" + s.kind + "-accepted:" + sk,
 				fmt.Sprintf("after [%s] the passphrase identity returned a file key through %s for step %d: %s (alloc delta %d)", strings.Join(descs[:i], " ; "), s.Route, i, s.desc, so.Delta), replay})
+			violated = true
+			continue
+		}
+		if s.hard && so.Soft {
+			rep.violate(pendingViolation{"hist-" + s.kind + "-soft-error/" + cls, "hist-" + s.kind + "-soft-error:" + sk,
+				fmt.Sprintf("after [%s] step %d (%s) was answered through %s with the \"not for this identity\" class of error (%s) instead of a refusal of the over-limit work factor", strings.Join(descs[:i], " ; "), i, s.desc, s.Route, so.Err), replay})
 			violated = true
 			continue
 		}
@@ -154,6 +176,8 @@ func (h *histCase) judge(r *mon.Run, o *outcome, died string) (violated bool) {
 	}
 	return violated
 }
+
+var failedControls int
 
 // genuine builds a lone stanza genuinely sealed at work factor w.
 func genuine(tag string, w int) *sealedStanza {
